@@ -75,6 +75,10 @@ def check(ctx):
                 acc_names[q] = rest[0]
                 good = True
         ctx.check(good, R3, fi, st, f".{tot} is not `<component>.{q} * <instance count>` (normal form {p!r})", f"normal form {p!r}")
+        conds = [norm(h.ast.test) for h, lab in cfg.control_conditions(cfg.node_of(st)) if h.kind == "if"]
+        stale = [c_ for c_ in conds if "_costs_calculated" in c_ or "calculated" in c_.lower()]
+        ctx.check(not stale, R3, fi, st, f".{tot} is only refreshed when `{stale[0] if stale else ''}`: the instance count depends on the fanouts above the component, which may have changed since the per-instance value was computed, "
+                  "so re-costing after a fanout edit keeps the old total", f".{tot} recomputed from the current count on every call that asks for {q}")
     if len(acc_names) == 2:
         ctx.check(acc_names["area"] == acc_names["leak_power"], R3, fi, loop, "area and leak power are multiplied by different counts", f"both totals use the same count `{acc_names['area']}`")
     if not acc_names:
@@ -242,6 +246,7 @@ def check(ctx):
 
 
 VARIANTS = [
+    {"kind": "F", "name": "totals-frozen-once-calculated", "rule": "C26-I3", "edits": [(SPEC, "            if area:\n", "            if area and \"area\" not in orig._costs_calculated:\n")]},
     {"kind": "F", "name": "drop-own-fanout", "rule": "C26-I1", "edits": [(SPEC, "            global_fanout = leaf.get_fanout()\n", "            global_fanout = 1\n")]},
     {"kind": "F", "name": "drop-compute-exclusion", "rule": "C26-I2", "edits": [(SPEC, "if isinstance(p, Spatialable) and not isinstance(p, Compute):", "if isinstance(p, Spatialable):")]},
     {"kind": "F", "name": "add-instead-of-multiply", "rule": "C26-I1", "edits": [(SPEC, "                    global_fanout *= p.get_fanout()", "                    global_fanout += p.get_fanout()")]},
